@@ -67,6 +67,11 @@ type OpInfo struct {
 	Err   error
 	Write bool
 	Idx   int
+	// Xattrs / Body are the values handed to an xattr write (nil otherwise); they let an
+	// oracle observe what reached storage, in storage order.
+	Xattrs map[string][]byte
+	Body   []byte
+	Tomb   bool
 }
 
 func NewNode(sim *verifsim.Sim, name string) *Node {
@@ -268,6 +273,28 @@ func (ds *DataStore) post(op, key string, kind opKind, alt string, idx int, err 
 			}
 		}
 		n.Observe(OpInfo{Task: name, Op: op, Key: key, Class: KeyClass(key), Alt: alt, Err: err, Write: kind != opRead, Idx: idx})
+	}
+	return err
+}
+
+// postX is post for xattr writes: it additionally reports what was written.
+func (ds *DataStore) postX(op, key string, kind opKind, alt string, idx int, err error, body []byte, xattrs map[string][]byte, tomb bool) error {
+	n := ds.node
+	switch alt {
+	case AltTimeoutApplied:
+		err = base.ErrTimeout
+	case AltCrashAfter:
+		n.Crash()
+		err = ErrNodeDown
+	}
+	if n.Observe != nil {
+		name := ""
+		if s := verifsim.Current(); s != nil {
+			if t := s.CurrentTask(); t != nil {
+				name = t.Name
+			}
+		}
+		n.Observe(OpInfo{Task: name, Op: op, Key: key, Class: KeyClass(key), Alt: alt, Err: err, Write: true, Idx: idx, Xattrs: xattrs, Body: body, Tomb: tomb})
 	}
 	return err
 }
@@ -539,7 +566,11 @@ func (ds *DataStore) WriteWithXattrs(ctx context.Context, k string, exp uint32, 
 		return 0, ds.fail("WriteWithXattrs", k, opCasWrite, alt, idx, ferr)
 	}
 	casOut, err := ds.DataStore.WriteWithXattrs(ctx, k, exp, cas, value, xattrsValues, xattrsToDelete, opts)
-	err = ds.post("WriteWithXattrs", k, opCasWrite, alt, idx, err)
+	if err == nil {
+		err = ds.postX("WriteWithXattrs", k, opCasWrite, alt, idx, err, value, xattrsValues, false)
+	} else {
+		err = ds.post("WriteWithXattrs", k, opCasWrite, alt, idx, err)
+	}
 	if err != nil {
 		return 0, err
 	}
@@ -552,7 +583,11 @@ func (ds *DataStore) WriteTombstoneWithXattrs(ctx context.Context, k string, exp
 		return 0, ds.fail("WriteTombstoneWithXattrs", k, opCasWrite, alt, idx, ferr)
 	}
 	casOut, err := ds.DataStore.WriteTombstoneWithXattrs(ctx, k, exp, cas, xattrValue, xattrsToDelete, deleteBody, opts)
-	err = ds.post("WriteTombstoneWithXattrs", k, opCasWrite, alt, idx, err)
+	if err == nil {
+		err = ds.postX("WriteTombstoneWithXattrs", k, opCasWrite, alt, idx, err, nil, xattrValue, true)
+	} else {
+		err = ds.post("WriteTombstoneWithXattrs", k, opCasWrite, alt, idx, err)
+	}
 	if err != nil {
 		return 0, err
 	}
@@ -565,7 +600,11 @@ func (ds *DataStore) WriteResurrectionWithXattrs(ctx context.Context, k string, 
 		return 0, ds.fail("WriteResurrectionWithXattrs", k, opWrite, alt, idx, ferr)
 	}
 	casOut, err := ds.DataStore.WriteResurrectionWithXattrs(ctx, k, exp, body, xattrs, opts)
-	err = ds.post("WriteResurrectionWithXattrs", k, opWrite, alt, idx, err)
+	if err == nil {
+		err = ds.postX("WriteResurrectionWithXattrs", k, opWrite, alt, idx, err, body, xattrs, false)
+	} else {
+		err = ds.post("WriteResurrectionWithXattrs", k, opWrite, alt, idx, err)
+	}
 	if err != nil {
 		return 0, err
 	}
@@ -618,7 +657,11 @@ func (ds *DataStore) UpdateXattrs(ctx context.Context, k string, exp uint32, cas
 		return 0, ds.fail("UpdateXattrs", k, opCasWrite, alt, idx, ferr)
 	}
 	casOut, err := ds.DataStore.UpdateXattrs(ctx, k, exp, cas, xv, opts)
-	err = ds.post("UpdateXattrs", k, opCasWrite, alt, idx, err)
+	if err == nil {
+		err = ds.postX("UpdateXattrs", k, opCasWrite, alt, idx, err, nil, xv, false)
+	} else {
+		err = ds.post("UpdateXattrs", k, opCasWrite, alt, idx, err)
+	}
 	if err != nil {
 		return 0, err
 	}
